@@ -101,7 +101,16 @@ fn wait_for_child_done(fds: &[c_int], child_pid: pid_t) -> i32 {
                 // Child closed pipe without sending a byte - get the process exit_status
                 let mut status: libc::c_int = -1i32;
                 libc::waitpid(child_pid, &mut status, 0);
-                libc::WEXITSTATUS(status)
+                if libc::WIFEXITED(status) {
+                    libc::WEXITSTATUS(status)
+                } else if libc::WIFSIGNALED(status) {
+                    // The child was killed by a signal (e.g. it crashed or ran out of memory).
+                    // WEXITSTATUS would be 0 in this case, which would incorrectly indicate
+                    // success. Do what a shell would do.
+                    128 + libc::WTERMSIG(status)
+                } else {
+                    1
+                }
             }
         }
     }
